@@ -225,4 +225,7 @@ def spaces(tier, seed):
     if os.environ.get('VERIF_C18_GENERATED', '1') == '1':
         from mcx.props import c18_generated
         sp += c18_generated.spaces(tier, seed)
+    if os.environ.get('VERIF_C18_SEQUENCES', '1') == '1':
+        from mcx.props import c18_sequences
+        sp += c18_sequences.spaces(tier, seed)
     return sp
